@@ -138,6 +138,33 @@ def run_cases(prop, cases, nproc=16, chunk=200, timeout=900):
         list(ex.map(work, chunks))
     return cases
 
+def run_cases_par(prop, cases, k=8, nproc=4, chunk=120, timeout=900):
+    """the same pipeline with `worker -par k`: the cases of a chunk run concurrently in one process, each on
+    its own trees.  A worker that dies marks the first case without an observation as DIED."""
+    chunks = [cases[i:i + chunk] for i in range(0, len(cases), chunk)]
+    def work(ch):
+        res, err = lib.run_pipeline(prop, [c["sx"] for c in ch], timeout=timeout, worker_args=["-par", str(k)])
+        died = False
+        for c, r in zip(ch, res):
+            c["kind"], c["fields"], c["obs"] = r
+            if "worker died" in c["obs"]:
+                if not died:
+                    c["kind"], c["fields"], died = "DIED", [err[-500:]], True
+                else:
+                    c["kind"], c["fields"] = "OK", ["0", "not run: the worker died earlier in this chunk"]
+        for c in ch:
+            c["meta"] = dict(c.get("meta") or {}, par=k, par_chunk=[x["sx"] for x in ch] if c["kind"] not in ("OK",) else None)
+    with ThreadPoolExecutor(max_workers=nproc) as ex:
+        list(ex.map(work, chunks))
+    return cases
+
+def par_eligible(mod, c):
+    """cases that do not touch the process-wide math/rand source can share a process with others"""
+    f = getattr(mod, "PAR_OK", False)
+    if not f or "(seed " in c["sx"]:
+        return False
+    return f(c) if callable(f) else True
+
 def match_known(prop, mod, case, known):
     for k in known:
         if k.get("property") != prop or k.get("status") != "open":
@@ -200,6 +227,15 @@ def run_check(prop, mod, tier, seed, st, known, t0):
         cases = []
     if cases:
         run_cases(prop, cases)
+        # concurrent pass: the cases that passed alone are run again, several at a time in one process
+        elig = [c for c in cases if c.get("kind") == "OK" and par_eligible(mod, c) and len(c["sx"]) < 200000]
+        npar = 480 if tier == "quick" else 4000
+        if len(elig) > npar:
+            elig = random.Random(seed + 2).sample(elig, npar)
+        parc = [{"sx": c["sx"], "meta": dict(c.get("meta") or {})} for c in elig]
+        if parc:
+            run_cases_par(prop, parc)
+            cases += parc
     viol = []          # oracle-level failures not in known findings
     knownhits = {}
     corr = []
@@ -332,7 +368,21 @@ def replay(prop, mod, path):
         print(json.dumps(body.get("note"), indent=1)[:3000])
         return 1
     cases = [{"sx": body["case"], "meta": {}}]
-    run_cases(prop, cases, nproc=1)
+    chunk = (body.get("meta") or {}).get("par_chunk")
+    if chunk:
+        # found in the concurrent pass: run the same group of cases together again (a few attempts:
+        # whether the interleaving recurs is up to the scheduler)
+        for attempt in range(5):
+            group = [{"sx": s, "meta": {}} for s in chunk]
+            run_cases_par(prop, group, k=body["meta"].get("par", 8), nproc=1, chunk=len(group))
+            bad = [c for c in group if c.get("kind") != "OK"]
+            if bad:
+                cases = [bad[0]]
+                break
+        else:
+            cases = [group[0]]
+    else:
+        run_cases(prop, cases, nproc=1)
     c = cases[0]
     print("case   :", c["sx"][:3000])
     print("obs    :", (c.get("obs") or "")[:3000])
